@@ -377,6 +377,16 @@ def rules(ctx):
             if isinstance(n, ast.Return) and isinstance(n.value, ast.Call) and is_name(n.value.func, 'max'):
                 found = True
                 ctx.inst('R13.3', rb, n, False, "recompute returns the maximum")
+        # the scan is complete and independent of the cached best: no early exit, no read of `.best`
+        jumps = [n for n in ast.walk(rb.node) if isinstance(n, (ast.Break, ast.Continue))] + \
+                [n for lp_ in ast.walk(rb.node) if isinstance(lp_, ast.For) for n in ast.walk(lp_) if isinstance(n, ast.Return)]
+        stale = [n for n in ast.walk(rb.node) if isinstance(n, ast.Attribute) and n.attr == 'best']
+        okscan = not jumps and not stale
+        ctx.inst('R13.3', rb, 'complete scan in %s' % rname, okscan,
+                 "every element is compared; the cached best is not consulted" if okscan else
+                 "the recomputation %s: callers recompute exactly because the cached best may be stale, and an element "
+                 "added by item assignment can be smaller than it" % ("reads the cached `.best`" if stale else
+                                                                      "leaves its scan early (break / continue / return)"))
         if not found:
             raise AnalysisError("_recompute_best: no recognisable comparison")
         # None on empty: initial value None returned if loop does not run
